@@ -492,11 +492,20 @@ func (conn *Conn) FidGet(fidno uint32) *SrvFid {
 }
 
 // Creates a new SrvFid struct for the fidno integer. Returns nil
-// if the SrvFid for that number already exists. The returned fid
-// has reference count set to 1.
+// if the SrvFid for that number already exists, or if the connection
+// is closed. The returned fid has reference count set to 1.
 func (conn *Conn) FidNew(fidno uint32) *SrvFid {
 	conn.Lock()
 	_, present := conn.fidpool[fidno]
+	select {
+	case <-conn.done:
+		/* the fids of a closed connection were reported destroyed; a
+		 * request that is started or still executing afterwards can't
+		 * bind a new one, nobody would ever report it */
+		present = true
+	default:
+	}
+
 	if present {
 		conn.Unlock()
 		return nil
